@@ -1252,6 +1252,7 @@ def check_C15(ctx):
         ctx.nontriv(f["food.yaml"] + f["log.yaml"])
     cli_diff(ctx, oddc, tag="C15:odd-names:")
     # amounts that print as 0.00 / -0.00 but are not zero keep the colour of their sign; names that are path-prefixes of others in the balance
+    tiny_cases = []
     for k in range(ctx.scale(12, 300)):
         tiny = [r.choice(["0.004", "-0.003", "0.0049", "-0.0049", "0.001", "-0.0001", "0.005", "-0.005", "0", "-0", "1e-9"]) for _ in range(4)]
         f = {"food.yaml": ("mix:\n  kcal: %s\n  fat: %s\n  alcohol%%vol: 2\nmilk/3.5%%/100ml:\n  fat: 3.5\n  100%%: 1\n" % (tiny[0], tiny[1])).encode(),
@@ -1260,6 +1261,7 @@ def check_C15(ctx):
             for extra in (dict(cmd="reg"), dict(cmd="reg", template="left-aligned"), dict(cmd="reg", old=True), dict(cmd="summary", arg=b"2021/01/01"),
                           dict(cmd="bal"), dict(cmd="bal", collapse=True), dict(cmd="bal", collapse_last=True)):
                 c = dict(files=f, **extra); c.update({} if color else NOCOLOR); cases.append(c)
+                if color and extra["cmd"] in ("reg", "summary"): tiny_cases.append((len(cases) - 1, {b"trace": tiny[2], b"other": tiny[3]}))
         ctx.nontriv(f["log.yaml"] + f["food.yaml"])
     # shortening on its own: names longer than the columns
     for k in range(ctx.scale(40, 1000)):
@@ -1267,6 +1269,24 @@ def check_C15(ctx):
         f = {"food.yaml": ("%s:\n  %s: 2\n" % (long1, gen.word(r, 21, 30))).encode(), "log.yaml": ("2021/01/01:\n  %s: 1\n" % long1).encode()}
         cases.append(dict(files=f, cmd="reg", shorten=True, **NOCOLOR)); cases.append(dict(files=f, cmd="reg", **NOCOLOR))
     ires = cli_diff(ctx, cases, tag="C15:")
+    # colour by the sign of the AMOUNT (known here from the log), not of its two printed decimals: positive red, negative green, zero (also -0) none
+    for idx, known in tiny_cases:
+        i = ires[idx]
+        if i["status"] != "ok": continue
+        lines = i["stdout"].split(b"\n")
+        if cases[idx]["cmd"] == "summary":      # above the dashes the summary shows the POSITIVE column of the day's totals, below them the foods with their amounts
+            cut = [k2 for k2, l in enumerate(lines) if strip_sgr(l).startswith(b"------------")]
+            lines = lines[cut[0] + 1:] if cut else []
+        for line in lines:
+            plain = strip_sgr(line)
+            if b"=" in plain or b"TOTAL" in plain: continue
+            for nm, lex in known.items():
+                if re.search(rb"(^|[\t :])" + nm + rb"($|[\t :])", plain) and len(re.findall(rb"-?\d+\.\d\d", plain)) == 1:
+                    v = Fraction(lex); cols = set(re.findall(rb"\x1b\[(3\d)m", line))
+                    want = {b"31"} if v > 0 else {b"32"} if v < 0 else set()
+                    if cols != want:
+                        ctx.violation("C15:colour-by-sign-of-amount", "the amount %s of %r is printed %r with colour %r (positive red 31, negative green 32, zero none)" % (lex, nm, plain.strip()[:60], sorted(cols)),
+                                      dict(kind="cli", case=cases[idx], impl=i)); break
     num_re = re.compile(rb"-?\d+\.\d\d|NaN|[+-]Inf")
     for g in groups:
         def o(key): return ires[g[key]]
